@@ -221,7 +221,10 @@ impl downstream::PendingTcpConnectRequest for TcpConnection {
                     authority.port_u16().ok_or_else(|| {
                         io::Error::new(
                             ErrorKind::Other,
-                            format!("Unexpected authority port: request={:?}", request.request()),
+                            format!(
+                                "Unexpected authority port: request={:?}",
+                                net_utils::scrub_request(request.request())
+                            ),
                         )
                     })?
                 } else {
@@ -263,7 +266,12 @@ impl downstream::PendingRequest for PendingRequest {
                 ))
             }
             Some(HEALTH_CHECK_AUTHORITY) | Some(UDP_AUTHORITY) | Some(ICMP_AUTHORITY) => {
-                log_id!(debug, self.id, "Unexpected request method: {:?}", request);
+                log_id!(
+                    debug,
+                    self.id,
+                    "Unexpected request method: {:?}",
+                    net_utils::scrub_request(request)
+                );
                 fail_request(self.stream, BAD_STATUS_CODE, vec![]);
                 Ok(None)
             }
